@@ -21,6 +21,8 @@ FT ==
  @@ "Query.items"      :> [parent |-> "Query",  name |-> "items",       res |-> "Item",   shared |-> FALSE, args |-> << A("ids", "[ID!]!", TRUE), A("colors", "[Color]", FALSE), A("filter", "Filter", FALSE) >>]
  @@ "Query.search"     :> [parent |-> "Query",  name |-> "search",      res |-> "SearchResult", shared |-> FALSE, args |-> << A("text", "String!", TRUE), A("maxHits", "Int", FALSE) >>]
  @@ "Query.node"       :> [parent |-> "Query",  name |-> "node",        res |-> "Node",   shared |-> FALSE, args |-> << A("id", "ID!", TRUE) >>]
+ \* same argument NAME and named type as Query.item / Query.node but another wrapper (ID vs ID!): declared types must not be shared
+ @@ "Query.maybe"      :> [parent |-> "Query",  name |-> "maybe",       res |-> "Item",   shared |-> FALSE, args |-> << A("id", "ID", FALSE) >>]
  @@ "Query.me"         :> [parent |-> "Query",  name |-> "me",          res |-> "Person", shared |-> FALSE, args |-> << >>]
  @@ "Query.version"    :> [parent |-> "Query",  name |-> "version",     res |-> "-",      shared |-> FALSE, args |-> << >>]
  @@ "Item.id"          :> [parent |-> "Item",   name |-> "id",          res |-> "-",      shared |-> TRUE,  args |-> << >>]
@@ -31,6 +33,7 @@ FT ==
  @@ "Person.id"        :> [parent |-> "Person", name |-> "id",          res |-> "-",      shared |-> TRUE,  args |-> << >>]
  @@ "Person.fullName"  :> [parent |-> "Person", name |-> "fullName",    res |-> "-",      shared |-> TRUE,  args |-> << >>]
  @@ "Person.items"     :> [parent |-> "Person", name |-> "items",       res |-> "Item",   shared |-> FALSE, args |-> << A("ids", "[ID!]!", TRUE), A("since", "Date", FALSE) >>]
+ @@ "Item.thumb"       :> [parent |-> "Item",   name |-> "thumb",       res |-> "-",      shared |-> FALSE, args |-> << A("size", "Int", FALSE), A("format", "String", FALSE) >>]
  @@ "Person.avatar"    :> [parent |-> "Person", name |-> "avatar",      res |-> "-",      shared |-> FALSE, args |-> << A("size", "Int!", TRUE), A("format", "String", FALSE) >>]
  @@ "Node.id"          :> [parent |-> "Node",   name |-> "id",          res |-> "-",      shared |-> TRUE,  args |-> << >>] )
 FKeys == DOMAIN FT
